@@ -11,21 +11,25 @@
   a PeerDown removes every entry of that peer.  `ribV m st key` is what `iter_reach` /
   `iter_reach_post` yield for that key.
 
-  Scope of the master theorem: every operation of the case language on channel subscribers —
-  insert / remove / soft reset IN (from any thread) / import-policy change / session up with
-  `register_peer` / non-retaining session down / GR-retaining session down / the bulk purges
-  (`drop_stale_families`, `drop_families`, `mark_llgr_stale`, `drop_llgr_stale_families`; repaired:
-  they withdraw what they remove, S28b) / subscribe / unsubscribe.  A key the table holds as a
+  Scope of the master theorem `C18_full_holds`: EVERY case of the case language — insert / remove /
+  soft reset IN (from any thread) / import-policy change / session up with `register_peer` /
+  non-retaining session down / GR-retaining session down / the bulk purges (`drop_stale_families`,
+  `drop_families`, `mark_llgr_stale`, `drop_llgr_stale_families`; repaired: they withdraw what they
+  remove, S28b) / subscribe / unsubscribe / a BMP connection (`BmpClient::serve`: drain to
+  EndOfSnapshot, flush, forward) / an MRT updates dump (`MrtDumper`) / a gRPC `watch_event` stream.
+  The consumer tasks are transition systems over the events they receive (`consStep` / `consRun`
+  in the model, `cvStep` per (map, key) in `Rbgp.Monitor.Consumer`).  A key the table holds as a
   GR-retained (stale) route of an ended session is not judged (DESIGN §4.0: the subscriber was told
-  PeerDown for that session; retention is C10's subject).  The clauses of the checker that judge a
-  consumer task (`BmpClient::serve`, `MrtDumper::serve`, gRPC `watch_event`) are excluded from the
-  theorem by `noBmp` and backed by the correspondence run and the oracle on the real output only;
-  the full statement `C18_full` (every case, consumers included) is kept as a definition.
+  PeerDown for that session; retention is C10's subject); the route clauses of a BMP connection /
+  watch stream are judged (by the checker) only when every session announces routes between its up
+  and its down (`sessionsOk`), the MRT clause only for peers that never end a session.
 
   The proofs are corollaries of `Rbgp.Monitor.Proofs` (the invariant `Inv` is preserved by every
-  atomic step: `step_inv`) and `Rbgp.Monitor.ProofsRun`.
+  atomic step: `step_inv`), `Rbgp.Monitor.ProofsRun`, `Rbgp.Monitor.Consumer` (pure lemmas about
+  the consumer state machines, for every input stream), `Rbgp.Monitor.ConsumerRun` (the consumer
+  invariants `CInv` are preserved by every atomic step) and `Rbgp.Monitor.ConsumerMaster`.
 -/
-import Rbgp.Monitor.ProofsRun
+import Rbgp.Monitor.ConsumerMaster
 namespace Rbgp.Monitor.Props
 open Rbgp.Monitor
 
@@ -39,10 +43,19 @@ def shardsOk (c : Case) : Bool := c.threads.all fun t => t.2.all fun o => match 
     consumer tasks (BMP connection, MRT dump, watch stream) included. -/
 def C18_full : Prop := ∀ c : Case, shardsOk c = true → Spec.check c (observe c (run c)) = .ok
 
-/-- The proved part: every case without consumer tasks (`noBmp`) — any number of shards,
-    sessions, channel subscribers, ANY operations (the purge class included), ANY schedule string,
-    at either granularity.  The reference checker written from the property text accepts the
+/-- THE MASTER THEOREM: the full statement holds — any number of shards, sessions, channel
+    subscribers, BMP connections, MRT dumps and watch streams, ANY operations, ANY schedule string,
+    at either granularity: the reference checker written from the property text accepts the
     observation of the model's run. -/
+theorem C18_full_holds : C18_full := by
+  intro c h
+  apply check_run_ok_full
+  unfold shardsOk at h
+  unfold caseOk
+  rw [← h]
+  congr 1
+
+/-- (the part proved first: every case without consumer tasks) -/
 theorem check_run_ok (c : Case) (hc : caseOk c = true) (hb : noBmp c = true) :
     Spec.check c (observe c (run c)) = .ok :=
   check_run_ok_of_noBmp c hc hb
@@ -233,6 +246,69 @@ def exSr : Case :=
 example : view true ⟨0, 1, 0, 0⟩ ((run exSr).queues 0) = none ∧ ribV true (run exSr) ⟨0, 1, 0, 0⟩ = none ∧
     view false ⟨0, 1, 0, 0⟩ ((run exSr).queues 0) = some 10005 := by decide
 
+/-! ## The consumer tasks -/
+
+/-- "Peer-down is reported only for peers whose peer-up was reported", BMP connection: for EVERY
+    stream of events the task receives and every set of peers it finds established at
+    EndOfSnapshot, the PeerUp / PeerDown messages about any peer `p` written on the connection
+    never contain a PeerDown that does not answer a PeerUp. -/
+theorem bmp_peerdown_after_peerup (p : Nat) (q : List Ev) (e0 : List Nat) :
+    Spec.downsFollowUps (wireCtl p q e0) [] = true := wireCtl_ok p q e0
+
+/-- the same for a gRPC watch stream -/
+theorem watch_peerdown_after_peerup (p : Nat) (q : List Ev) (e0 : List Nat) :
+    Spec.downsFollowUps (watchCtl p q e0) [] = true := watchCtl_ok p q e0
+
+/-- Refinement: what the client of a watch stream holds for (map, key) is the fold (`view`) of the
+    events the task let through (`consRun`, the transition system of the task). -/
+theorem watch_view_is_fold (m : Bool) (key : Key) (q : List Ev) (e0 : List Nat) :
+    Spec.held (watchHist m key q e0) = view m key (consRun q e0) := by
+  unfold Spec.held watchHist view
+  exact held_consHist m key q e0 none
+
+/-- For every input stream: the station of a BMP connection / the client of a watch stream holds,
+    per (map, key), either what a channel subscriber of the same channel holds, or nothing; and
+    nothing about a peer that is not announced on the connection. -/
+theorem consumer_view_or_nothing (m : Bool) (key : Key) (e0 : List Nat) (b0 : Bool) (q : List Ev) :
+    Good key (cvFold m key e0 b0 q) (view m key q) := good_fold m key e0 b0 q
+
+/-- The consumer invariants in every state reachable by any interleaving (cases whose sessions
+    announce routes between their up and their down): a peer in session is announced on every
+    consumer connection that has read the peer table, and the station agrees with the channel view
+    on every key of an announced peer unless the key is on its way out. -/
+theorem reachable_cinv (c : Case) (hc : caseOk c = true) (hso : Spec.sessionsOk c = true) (st : St)
+    (h : Reach c st) : CInv st := reach_cinv hc hso h
+
+/-- the refinement step: wherever a channel subscriber of the same channel holds what the table
+    holds, so does the consumer's station -/
+theorem consumer_refines_channel (c : Case) (hc : caseOk c = true) (hso : Spec.sessionsOk c = true) (st : St)
+    (h : Reach c st) (hq : quiescent st) (i : Nat) (r : SubRec) (hr : r ∈ (st.threads i).mysubs)
+    (hk0 : r.kind ≠ 0) (hk2 : r.kind ≠ 2) (m : Bool) (key : Key) (hns : ¬ staleKey st key)
+    (hv : view m key (st.queues r.sid) = ribV m st key) :
+    (cvFold m key r.e0 (r.kind != 1) (st.queues r.sid)).w = ribV m st key :=
+  cons_end (reach_inv hc h) (reach_cinv hc hso h) hq hr hk0 hk2 m key hns hv
+
+/-- the hypotheses of the consumer theorems are satisfiable: a case with a BMP connection, an MRT
+    dump and a watch stream next to a purge -/
+example : caseOk consumerWitness = true ∧ Spec.sessionsOk consumerWitness = true := by decide
+
+/-- the "or nothing" of `consumer_view_or_nothing` happens: a watch stream that found no peer
+    established drops the route event of a peer it has not announced, a channel subscriber of the
+    same channel holds it -/
+example : (cvFold false ⟨0, 0, 0, 0⟩ [] true [.pre ⟨0, 0, 0, 0⟩ (some 5)]).w = none ∧
+    view false ⟨0, 0, 0, 0⟩ [.pre ⟨0, 0, 0, 0⟩ (some 5)] = some 5 := by decide
+
+/-- … and a PeerUp alone does not repair it (why the invariant `CI` needs its escape clauses and
+    the session-phase invariant `PHI`): announced, the station holds nothing, the channel view 5 -/
+example : 0 ∈ ann [] (cvFold false ⟨0, 0, 0, 0⟩ [] true [.pre ⟨0, 0, 0, 0⟩ (some 5), .up 0]) ∧
+    (cvFold false ⟨0, 0, 0, 0⟩ [] true [.pre ⟨0, 0, 0, 0⟩ (some 5), .up 0]).w = none := by decide
+
+/-- a BMP connection drains to EndOfSnapshot, flushes the routes of the peers it finds established
+    and then forwards: the PeerDown of peer 0 clears what was flushed -/
+example : (cvFold false ⟨0, 0, 0, 0⟩ [0] false [.pre ⟨0, 0, 0, 0⟩ (some 5), .eos]).w = some 5 ∧
+    (cvFold false ⟨0, 0, 0, 0⟩ [0] false [.pre ⟨0, 0, 0, 0⟩ (some 5), .eos, .down 0]).w = none ∧
+    (cvFold false ⟨0, 0, 0, 0⟩ [] false [.pre ⟨0, 0, 0, 0⟩ (some 5), .eos]).w = none := by decide
+
 /-- the forwarded stream of a consumer that never saw the PeerUp drops the PeerDown -/
 example : forward [.down 3, .up 3, .down 3, .down 3] [] = [.up 3, .down 3] := by decide
 
@@ -242,7 +318,14 @@ example : (drainSnapshot [.pre ⟨0, 0, 0, 0⟩ (some 7), .down 0, .up 0, .eos] 
 
 end Rbgp.Monitor.Props
 
+#print axioms Rbgp.Monitor.Props.C18_full_holds
 #print axioms Rbgp.Monitor.Props.check_run_ok
+#print axioms Rbgp.Monitor.Props.bmp_peerdown_after_peerup
+#print axioms Rbgp.Monitor.Props.watch_peerdown_after_peerup
+#print axioms Rbgp.Monitor.Props.watch_view_is_fold
+#print axioms Rbgp.Monitor.Props.consumer_view_or_nothing
+#print axioms Rbgp.Monitor.Props.reachable_cinv
+#print axioms Rbgp.Monitor.Props.consumer_refines_channel
 #print axioms Rbgp.Monitor.Props.reachable_inv
 #print axioms Rbgp.Monitor.Props.snapshot_invariant
 #print axioms Rbgp.Monitor.Props.reconstruct_exact
